@@ -6,6 +6,7 @@ import (
 	"context"
 	"fmt"
 	"reflect"
+	"runtime/debug"
 	"sort"
 	"sync/atomic"
 
@@ -116,10 +117,18 @@ type Response struct {
 	Label    string
 	Path     ast.Path
 	OpCtx    *graphql.OperationContext
+	// Panic: a panic escaped gqlgen's own code (executor/validation), with its stack
+	Panic      any
+	PanicStack string
 }
 
 // Do executes one operation directly against the executor with the given Exec state current.
-func (s *Server) Do(ctx context.Context, e *univ.Exec, query, opName string, vars map[string]any) *Response {
+func (s *Server) Do(ctx context.Context, e *univ.Exec, query, opName string, vars map[string]any) (out *Response) {
+	defer func() {
+		if r := recover(); r != nil {
+			out = &Response{Panic: r, PanicStack: string(debug.Stack()), Rejected: true}
+		}
+	}()
 	s.U.SetExec(e)
 	var recovers atomic.Int64
 	ex := s.Exec
